@@ -200,3 +200,152 @@ contract(W + 'WMSSource._is_compatible', props=['C14'],
          types=dict(other='obj:mapproxy.source.wms:WMSSource', query='opaque'), returns='bool', default_callee='opaque',
          inline=['__eq__'], opaque_spec={'dimensions_for_params': {'pure': True}},
          trace=[_compatible_spec])
+
+
+# ---- WMSClient.combined_client: one upstream request for two adjacent sources, layers in drawing order ----------------------------
+def _combined_client_spec(ex, st, post, result):
+    import z3
+    from pyvc.values import eq, VNone, VSeq
+    a, b = post.env['self'], post.env['other']
+    ha = st.heap[a.ref]
+    made = [e for i, e in T.evs(st, 'WMSClient')]
+    cp = [e for i, e in T.evs(st, 'copy')]
+    sets = [e for e in st.trace if e.name == 'setattr:layers']
+    e0 = st.trace[0] if st.trace else None
+    ta = ha['request_template']
+    tb = ex.opaque_field(post, b, 'request_template')
+    same_url = eq(ex.opaque_field(post, ta, 'url'), ex.opaque_field(post, tb, 'url'))
+    is_none = z3.BoolVal(isinstance(result, VNone))
+    yield ('none_iff_other_server', z3.And(z3.Implies(z3.Not(same_url), is_none), z3.Implies(same_url, z3.Not(is_none))),
+           'requests are combined exactly when both templates address the same URL; otherwise None (no combination)')
+    if isinstance(result, VNone):
+        yield ('no_combination_no_effects', z3.BoolVal(not made and not sets), 'without combination nothing is built or changed')
+        return
+    ok = len(made) == 1 and len(cp) == 1 and len(sets) == 1 and cp[0].recv is not None and cp[0].recv.t.eq(ta.t) \
+        and result.t.eq(made[0].result.t) and len(made[0].args) == 1 and made[0].args[0].t.eq(cp[0].result.t)
+    goal = z3.BoolVal(bool(ok))
+    if ok:
+        se = sets[0]
+        new_params = ex.opaque_field_at(st, se, cp[0].result, 'params')
+        mine = ex.opaque_field_at(st, se, new_params, 'layers')
+        theirs = ex.opaque_field_at(st, se, ex.opaque_field_at(st, se, tb, 'params'), 'layers')
+        val = se.args[1]
+        n1, n2 = mine.length(), theirs.length()
+        i = z3.Int('i_cc')
+        goal = z3.And(goal, z3.BoolVal(se.recv is not None and se.recv.t.eq(new_params.t)),
+                      val.length() == n1 + n2,
+                      z3.ForAll([i], z3.Implies(z3.And(0 <= i, i < n1 + n2),
+                                                val.elem(i).t == z3.If(i < n1, mine.elem(i).t, theirs.elem(i - n1).t))))
+    yield ('layers_concatenated_in_drawing_order', goal,
+           'the combined request is a COPY of this template (the template itself is not modified) whose layer list is this '
+           "client's layers followed by the other's: the lower source stays below the upper one")
+    kw = made[0].kwargs if made else {}
+    same = made and all(k in kw for k in ('http_client', 'http_method', 'fwd_req_params')) \
+        and kw['http_client'].t.eq(ha['http_client'].t) and kw['http_method'].t.eq(ha['http_method'].t) \
+        and kw['fwd_req_params'].t.eq(ha['fwd_req_params'].t)
+    yield ('combined_client_keeps_settings', z3.BoolVal(bool(same)), 'HTTP client, method and forwarded parameters are those of this client')
+
+
+from contracts import c17_upstream   # noqa  (WMSClient class declaration)
+contract('mapproxy.client.wms:WMSClient.combined_client', props=['C14'],
+         types=dict(other='opaque', query='opaque'), returns='opt[opaque]', default_callee='opaque',
+         opaque_fields={'request_template': 'opaque', 'params': 'opaque', 'layers': 'list[str]', 'url': 'str'},
+         stable_fields=['request_template', 'url'],
+         opaque_spec={'copy': {'pure': True}, 'WMSClient': {'pure': True}},
+         trace=[_combined_client_spec])
+
+
+def _same(v, w):
+    if hasattr(v, 'ref') or hasattr(w, 'ref'):
+        return getattr(v, 'ref', None) == getattr(w, 'ref', -1)
+    return v.t.eq(w.t)
+
+
+def _combined_layer_spec(ex, st, post, result):
+    import z3
+    from pyvc.values import eq, VNone
+    a, b = post.env['self'], post.env['other']
+    ha, hb = st.heap[a.ref], st.heap[b.ref]
+    comp = [e for i, e in T.evs(st, '_is_compatible')]
+    cc = [e for i, e in T.evs(st, 'combined_client')]
+    made = [e for i, e in T.evs(st, 'WMSSource')]
+    ok = len(comp) == 1 and _same(comp[0].args[-2], b)
+    yield ('compatibility_checked_first', z3.BoolVal(bool(ok)), 'compatibility of exactly these two sources is evaluated')
+    if not ok:
+        return
+    compat = ex.truth(st, comp[0].result)
+    if isinstance(result, VNone):
+        g = z3.Not(compat) if not cc else z3.And(compat, z3.Not(ex.truth(st, cc[0].result)))
+        yield ('none_only_when_not_combinable', z3.And(g, z3.BoolVal(not made)),
+               'no combination only if the sources are incompatible or the clients cannot be combined')
+        return
+    ok = len(cc) == 1 and len(made) == 1 and _same(result, made[0].result) and cc[0].recv is not None \
+        and _same(cc[0].recv, ha['client']) and len(cc[0].args) == 2 and _same(cc[0].args[0], hb['client']) \
+        and _same(cc[0].args[1], post.env['query']) and len(made[0].args) == 1 and _same(made[0].args[0], cc[0].result)
+    yield ('combined_source_uses_combined_client',
+           z3.And(z3.BoolVal(bool(ok)), compat, ex.truth(st, cc[0].result) if cc else z3.BoolVal(False)),
+           'a combined source exists only for compatible sources; its client is self.client.combined_client(other.client, query) '
+           '(this source first: drawing order)')
+    kw = made[0].kwargs if made else {}
+    names = ('image_opts', 'transparent_color', 'transparent_color_tolerance', 'supported_srs', 'supported_formats', 'coverage',
+             'fwd_req_params')
+    g = z3.BoolVal(all(k in kw for k in names) and 'opacity' not in kw)
+    if all(k in kw for k in names):
+        g = z3.And(g, *[eq(kw[k], ha[k]) for k in names])
+    yield ('combined_source_keeps_settings', g,
+           'the combined source has the image options, colour key, SRS/format lists, coverage and forwarded parameters of this source '
+           '(equal to those of the other by _is_compatible) and no opacity')
+
+
+contract(W + 'WMSSource.combined_layer', props=['C14'],
+         types=dict(other='obj:mapproxy.source.wms:WMSSource', query='opaque'), returns='opt[opaque]', default_callee='opaque',
+         opaque_spec={'_is_compatible': {'returns': 'bool', 'pure': True}, 'combined_client': {'pure': True}, 'WMSSource': {'pure': True}},
+         opaque=['_is_compatible', 'WMSSource'],
+         trace=[_combined_layer_spec])
+
+
+# ---- combined_layers: only ADJACENT layers are merged, nothing is reordered or dropped ------------------------------------------
+def _combine_step(ex, st, k):
+    import z3
+    from pyvc.values import eq
+    pre = st.iter_start_state
+    evs_ = [e for e in st.trace[getattr(st, 'iter_start_trace', 0):] if e.name == 'combined_layer']
+    c0, c1 = pre.env['combined_layers'], st.env['combined_layers']
+    l0, l1 = pre.env['layers'], st.env['layers']
+    n0 = c0.length()
+    ok = len(evs_) == 1
+    goal = z3.BoolVal(ok)
+    if ok:
+        e = evs_[0]
+        cur = l0.elem(z3.IntVal(0))
+        merged = ex.truth(st, e.result)
+        i = z3.Int('i_cl')
+        goal = z3.And(
+            # asked: the LAST layer collected so far (the one directly below) with the next layer of the input, this query
+            z3.BoolVal(e.recv is not None and len(e.args) == 2), eq(e.recv, c0.elem(n0 - 1)), eq(e.args[0], cur),
+            z3.BoolVal(e.args[1].t.eq(st.env['query'].t)),
+            # consumed exactly that layer
+            l1.length() == l0.length() - 1,
+            z3.ForAll([i], z3.Implies(z3.And(0 <= i, i < l1.length()), eq(l1.elem(i), l0.elem(i + 1)))),
+            # everything below the last collected layer is untouched
+            z3.ForAll([i], z3.Implies(z3.And(0 <= i, i < n0 - 1), eq(c1.elem(i), c0.elem(i)))),
+            z3.If(merged,
+                  z3.And(c1.length() == n0, eq(c1.elem(n0 - 1), e.result)),
+                  z3.And(c1.length() == n0 + 1, eq(c1.elem(n0 - 1), c0.elem(n0 - 1)), eq(c1.elem(n0), cur))))
+    yield ('adjacent_merge_or_append', goal,
+           'each input layer, in order, is either merged into the layer directly below it (replacing it with the combination) or '
+           'appended unchanged on top; no other entry changes')
+
+
+contract('mapproxy.service.wms:combined_layers', props=['C14'],
+         types=dict(layers='list[opaque]', query='opaque'), returns='list[opaque]', default_callee='opaque',
+         opaque_spec={'combined_layer': {'returns': 'opt[opaque]', 'pure': True}},
+         ensures=["implies(len(layers) <= 1, len(result) == len(layers) and all(result[i] == layers[i] for i in range(len(layers))))",
+                  "implies(len(layers) >= 1, 1 <= len(result) and len(result) <= len(layers))",
+                  "len(layers) == len(old(layers)) and all(layers[i] == old(layers)[i] for i in range(len(layers)))"],
+         loops={0: dict(inv=["len(combined_layers) >= 1",
+                             "len(combined_layers) + len(layers) <= len(old(layers))",
+                             "all(layers[i] == old(layers)[i + len(old(layers)) - len(layers)] for i in range(len(layers)))"],
+                        types={'current_layer': 'opaque', 'combined': 'opt[opaque]', 'layers': 'list[opaque]',
+                               'combined_layers': 'list[opaque]'},
+                        body_trace=[_combine_step], decreases='len(layers)')})
